@@ -45,4 +45,19 @@ CLAIMED = {
   "note": "Trusted: the renderer's offset bookkeeping and the span conventions documented in DESIGN.md C17.",
   "technique": "property-based testing with generator-recorded offsets as oracle + generated faulty inputs for error spans",
  },
+ "C01": {
+  "text": "Generated well-scoped, XML-representable trees (full XML Char alphabet, shadowing, xmlns=\"\" undeclaration) built by three routes are serialised (whole tree or a non-root element), reparsed, and the read-back compared with the generator's abstract tree (names, attribute sets, text, comments, PIs, per-element declaration maps; inherited bindings on a sub-element's top tag per the scope model) plus deep_equal.",
+  "note": "Round trip through xot's own parser as the statement says; escaping defects that cancel between serializer and parser are covered by C02's and C10's independent readers.",
+  "technique": "property-based round-trip testing with model-owned expected tree",
+ },
+ "C14": {
+  "text": "Generated (tree, parameter set) pairs: every subset of the tree's element names as CDATA-section / suppress list, unescaped_gt, declaration variants, indentation. Non-indented output must reparse to the source tree; indented output is compared by a parallel walk that allows only added whitespace-only text and none under mixed content, xml:space=preserve (innermost wins) or suppressed elements.",
+  "note": "Trusted: the parallel-walk oracle; doctype parameter excluded (see DESIGN).",
+  "technique": "property-based round-trip / metamorphic testing over generated configurations",
+ },
+ "C16": {
+  "text": "For generated trees, start nodes and token parameters the token stream, the pretty token stream and the Write-based entry points are compared byte for byte with the string serialisations, and outputs() with an event list generated from the reference tree (node tags included; inherited Prefix events on the top element checked against the scope model).",
+  "note": "Differential between entry points of the same serializer plus a model-generated event grammar.",
+  "technique": "property-based differential testing between API entry points + model-generated expected event stream",
+ },
 }
